@@ -57,6 +57,11 @@ func runWorkers(c *Ctx, g int, body func(w int, rng *rand.Rand)) {
 func concBloom(c *Ctx, g int) {
 	f, _ := gostatix.NewMemBloomFilterWithParameters(200, 0.01)
 	seq, _ := gostatix.NewMemBloomFilterWithParameters(200, 0.01)
+	if c.rng.Intn(2) == 0 {
+		// the other in-memory constructor
+		f = gostatix.NewMemBloomFilterFromBitSet(make([]uint64, 30), 7)
+		seq = gostatix.NewMemBloomFilterFromBitSet(make([]uint64, 30), 7)
+	}
 	c.rep.Cases++
 	var mu sync.Mutex
 	var all [][]byte
@@ -145,6 +150,23 @@ func concCMS(c *Ctx, g int) {
 				}
 			case 5:
 				s.Export()
+				// the shared sketch as the SOURCE of a merge into a private one: the private copy
+				// must be a consistent snapshot (every row saw the same updates)
+				p, _ := gostatix.NewCountMinSketch(3, 7)
+				if p.Merge(s) == nil {
+					d, _ := parseCMS(p.Export())
+					var sums [3]uint64
+					for r := range d.M {
+						for _, v := range d.M[r] {
+							sums[r] += v
+						}
+					}
+					if sums[0] != sums[1] || sums[1] != sums[2] {
+						mu.Lock()
+						bad = append(bad, fmt.Sprintf("worker %d: a merge FROM the shared sketch copied a torn snapshot (row sums %v)", w, sums))
+						mu.Unlock()
+					}
+				}
 			default:
 				s.WriteTo(io.Discard)
 			}
@@ -196,6 +218,8 @@ func concHLL(c *Ctx, g int) {
 				}
 			case 5:
 				h.Export()
+				p, _ := gostatix.NewHyperLogLog(256)
+				p.Merge(h) // shared sketch as merge source
 			default:
 				h.WriteTo(io.Discard)
 			}
